@@ -2708,6 +2708,8 @@ def matrix_derived_members(fn):
             if x.get("k") in ("Ref", "Member"):
                 if base_key(objkey(lo, x)) in taint:
                     return True
+                if x.get("k") == "Ref" and x.get("dk") == "local" and ("local:%s" % x.get("n")) in taint:
+                    return True
         return False
 
     def mark(key, node):
@@ -2814,13 +2816,14 @@ class BalanceFlow:
     """forward dataflow: multiset of signed step lengths applied to the iterate (x += c w) and to the defect
     vector (r += -c A w).  r = b - A x needs every step length to cancel; a fresh r := b - A x resets."""
 
-    def __init__(self, fn, sol_key, def_key):
+    def __init__(self, fn, sol_key, def_key, methods=None, entry=(), depth=0):
         self.fn, self.sol, self.dfk = fn, sol_key, def_key
+        self.methods, self.depth = methods or {}, depth
         self.lo = Locals(fn)
         self.at_return = {}
         self.unknown_ops = []
         cfg = fn.cfg
-        self.ins = {cfg.entry: ()}
+        self.ins = {cfg.entry: entry}
         work = [cfg.entry]
         n = 0
         while work and n < 5000:
@@ -2876,6 +2879,23 @@ class BalanceFlow:
                     if record:
                         self.unknown_ops.append("line %s: %s" % (n.get("l"), render(n)[:50]))
                 continue
+            if (obj is None or obj.get("k") == "This") and nm in self.methods and self.depth < 2:
+                # a private helper: follow it with the keys translated to its parameters
+                callee = self.methods[nm]
+                tr = {}
+                for i2, a in enumerate(n.get("a", [])):
+                    if strip(a).get("k") in ("Ref", "Member", "MCall"):
+                        tr[objkey(lo, a)] = "$%d" % i2
+                sub = BalanceFlow(callee, tr.get(self.sol, self.sol if self.sol.startswith("this.") else "$none"),
+                                  tr.get(self.dfk, self.dfk if self.dfk.startswith("this.") else "$none"), self.methods, st, self.depth + 1)
+                outs = list(sub.at_return.values())
+                if record:
+                    self.unknown_ops.extend(sub.unknown_ops)
+                if not outs:
+                    # void helper without explicit return: the state at its normal exits
+                    outs = [sub.transfer(b2, sub.ins[b2], False) for b2 in callee.cfg.normal_exit_preds() if b2 in sub.ins]
+                st = outs[0] if outs and all(o == outs[0] for o in outs) else None
+                continue
             for i2, a in enumerate(n.get("a", [])):
                 if strip(a).get("k") not in ("Ref", "Member", "MCall"):
                     continue
@@ -2904,7 +2924,13 @@ def rule_solution_defect_balance(ck, solvers, cv=None):
             if dk is None or dk.startswith("?"):
                 ck.incomplete("E8.solution-defect-balance", "%s::_apply_intern [%s]: defect vector not identified" % (sc, tag))
                 continue
-            bf = BalanceFlow(fn, "$0", dk)
+            api = set(UPD) | {"_apply_precond", "_apply_precond_l", "_apply_precond_r", "_precond_l", "_precond_r", "apply", "correct", "_apply_intern"}
+            methods = {}
+            for mname, mfl in solvers.get(sc, {}).items():
+                cand = [f for f in mfl if f.cls == fn.cls and f.cfg is not None and not f.d.get("ctor")]
+                if cand and mname not in api:
+                    methods[mname] = cand[0]
+            bf = BalanceFlow(fn, "$0", dk, methods)
             sflow = StatusFlow(fn, cv or {}, _s) if cv else None
             nret = 0
             for rid, st in sorted(bf.at_return.items()):
@@ -2924,6 +2950,48 @@ def rule_solution_defect_balance(ck, solvers, cv=None):
         ck.ob("E8.solution-defect-balance", "%s::_apply_intern" % sc, not bad, "; ".join(bad[:2]) if bad else "; ".join(notes[:2]), fns[0].file, fns[0].line)
 
 
+def iterate_verdicts(fn, key, methods, depth=0):
+    """classify every use of the iterate object `key` in fn (following own helpers):
+    -> (n additive updates, [violations], [undecidable])"""
+    lo = Locals(fn)
+    n_upd, bad, unk = 0, [], []
+    for k, c in object_uses(fn, lo, key):
+        if k == "recv-mut" and cname(c) == "axpy":
+            n_upd += 1
+        elif k == "recv-mut" and cname(c) in ("copy", "scale") and c.get("a"):
+            src = objkey(lo, c["a"][0])
+            if src == key:
+                unk.append("line %s: the iterate is rescaled in place (%s)" % (c.get("l"), render(c)[:50]))
+                continue
+            # where does the source come from: an operator applied to the whole iterate?
+            op = None
+            for d in fn.calls():
+                roles = dict(zip(d.get("pn", []), d.get("a", [])))
+                if cname(d).startswith("_apply_precond") and len(d.get("a", [])) >= 2 and objkey(lo, d["a"][0]) == src and objkey(lo, d["a"][1]) == key and fn.cfg.stmt_dominates(d["i"], c["i"]):
+                    op = "the preconditioner M"
+                elif cname(d) == "apply" and "r" in roles and objkey(lo, roles["r"]) == src and objkey(lo, roles.get("x", {})) == key and fn.cfg.stmt_dominates(d["i"], c["i"]):
+                    op = "the matrix"
+            if op:
+                bad.append("%s line %s: `%s` overwrites the iterate with %s applied to the whole iterate: started through correct() with x0 != 0 the result is T(x0 + y) instead of x0 + T(y) "
+                           "(the start vector is transformed, the reported defect no longer belongs to the returned vector)" % (fn.name, c.get("l"), render(c)[:50], op))
+            else:
+                unk.append("line %s: the iterate is overwritten by %s, whose relation to the iterate is not modelled" % (c.get("l"), src))
+        elif k == "recv-mut":
+            unk.append("line %s: non-additive operation on the iterate: %s" % (c.get("l"), render(c)[:50]))
+        elif k == "arg-mut" and cname(c) not in ("filter_sol", "filter_cor"):
+            callee = methods.get(cname(c)) if (c.get("obj") is None or c["obj"].get("k") == "This") else None
+            if callee is not None and depth < 2:
+                idx = [i for i, a in enumerate(c.get("a", [])) if strip(a).get("k") in ("Ref", "Member", "MCall") and objkey(lo, a) == key]
+                for i in idx:
+                    n2, b2, u2 = iterate_verdicts(callee, "$%d" % i, methods, depth + 1)
+                    n_upd += n2
+                    bad += b2
+                    unk += u2
+            else:
+                unk.append("line %s: the iterate is handed to %s in a mutable position" % (c.get("l"), cname(c)))
+    return n_upd, bad, unk
+
+
 def rule_iterate_additive(ck, solvers):
     """_apply_intern serves apply() (x0 = 0) and correct() (x0 given): the iterate may only be updated additively"""
     for sc in sorted(SOLVERS):
@@ -2934,32 +3002,16 @@ def rule_iterate_additive(ck, solvers):
         bad, n_upd = [], 0
         for fn in fns:
             tag = short_inst(fn)
-            lo = Locals(fn)
-            for k, c in object_uses(fn, lo, "$0"):
-                if k == "recv-mut" and cname(c) == "axpy":
-                    n_upd += 1
-                elif k == "recv-mut" and cname(c) in ("copy", "scale") and c.get("a"):
-                    src = objkey(lo, c["a"][0])
-                    if src == "$0":
-                        ck.incomplete("E7.iterate-additive", "%s::_apply_intern [%s] line %s: the iterate is rescaled in place (%s)" % (sc, tag, c.get("l"), render(c)[:50]))
-                        continue
-                    # where does the source come from: an operator applied to the whole iterate?
-                    op = None
-                    for d in fn.calls():
-                        roles = dict(zip(d.get("pn", []), d.get("a", [])))
-                        if cname(d).startswith("_apply_precond") and len(d.get("a", [])) >= 2 and objkey(lo, d["a"][0]) == src and objkey(lo, d["a"][1]) == "$0" and fn.cfg.stmt_dominates(d["i"], c["i"]):
-                            op = "the preconditioner M"
-                        elif cname(d) == "apply" and "r" in roles and objkey(lo, roles["r"]) == src and objkey(lo, roles.get("x", {})) == "$0" and fn.cfg.stmt_dominates(d["i"], c["i"]):
-                            op = "the matrix"
-                    if op:
-                        bad.append("[%s] line %s: `%s` overwrites the iterate with %s applied to the whole iterate: started through correct() with x0 != 0 the result is T(x0 + y) instead of x0 + T(y) "
-                                   "(the start vector is transformed, the reported defect no longer belongs to the returned vector)" % (tag, c.get("l"), render(c)[:50], op))
-                    else:
-                        ck.incomplete("E7.iterate-additive", "%s::_apply_intern [%s] line %s: the iterate is overwritten by %s, whose relation to the iterate is not modelled" % (sc, tag, c.get("l"), src))
-                elif k == "recv-mut":
-                    ck.incomplete("E7.iterate-additive", "%s::_apply_intern [%s] line %s: non-additive operation on the iterate: %s" % (sc, tag, c.get("l"), render(c)[:50]))
-                elif k == "arg-mut" and cname(c) not in ("filter_sol", "filter_cor"):
-                    ck.incomplete("E7.iterate-additive", "%s::_apply_intern [%s] line %s: the iterate is handed to %s in a mutable position" % (sc, tag, c.get("l"), cname(c)))
+            methods = {}
+            for mname, mfl in solvers.get(sc, {}).items():
+                cand = [f for f in mfl if f.cls == fn.cls and f.cfg is not None and not f.d.get("ctor")]
+                if cand and mname not in ("apply", "correct", "_apply_intern"):
+                    methods[mname] = cand[0]
+            n1, b1, u1 = iterate_verdicts(fn, "$0", methods)
+            n_upd += n1
+            bad += ["[%s] %s" % (tag, x) for x in b1]
+            for u in u1[:3]:
+                ck.incomplete("E7.iterate-additive", "%s::_apply_intern [%s] %s" % (sc, tag, u))
         ck.ob("E7.iterate-additive", "%s::_apply_intern" % sc, not bad, "; ".join(bad[:2]) if bad else "the iterate is only updated by axpy (%d sites)" % n_upd, fns[0].file, fns[0].line)
 
 
